@@ -93,6 +93,14 @@ let preimg_s = function
   | None -> "preimage none"
   | Some p -> "preimage " ^ String.concat ";" (List.map (fun (k, l) -> zs k ^ ":" ^ String.concat "," (List.map zs l)) p)
 
+(* ---------- tags ---------- *)
+let u_printable (c : n) : bool = in_ranges printable_ranges c
+let arg_of kind s = match kind with
+  | "safe" -> ASafe (arg_str s) | "str" -> AStr (arg_str s) | "bytes" -> ABytes (arg_str s)
+  | _ -> failwith "bad arg kind"
+let sev_of = function 0 -> Pedantic | 1 -> Wishlist | 2 -> Minor | 3 -> Normal | 4 -> Important | _ -> Serious
+let cer_of = function 0 -> WildGuess | 1 -> Possible | _ -> Certain
+
 (* ---------- dispatch ---------- *)
 let handle (op : string) (a : string array) : string =
   match op with
@@ -125,6 +133,12 @@ let handle (op : string) (a : string array) : string =
      | Ok (ds, pre) -> String.concat " | " (List.map pdiag_s ds @ [preimg_s pre])
      | Err _ -> "crash PluralFormsSyntaxError"
      | Crash c -> "crash " ^ crash_name c)
+  | "escape" -> out_str (escape u_printable (arg_of a.(0) a.(1)))
+  | "fmtline" -> (* sev cer target name on off nargs (kind str)* *)
+    let prio = priority (sev_of (arg_int a.(0))) (cer_of (arg_int a.(1))) in
+    let nargs = arg_int a.(6) in
+    let extra = List.init nargs (fun i -> arg_of a.(7 + 2 * i) a.(8 + 2 * i)) in
+    out_str (format_line u_printable prio (arg_str a.(2)) (arg_str a.(3)) (arg_str a.(4)) (arg_str a.(5)) extra)
   | _ -> "unknown-op " ^ op
 
 let () =
